@@ -81,6 +81,14 @@ pub fn scenarios() -> Vec<Scenario> {
             1_000_000,
         ),
     ];
+    v.push(Scenario::new(
+        "C07",
+        "fri-proof-values",
+        "FriProof values as the FRI prover builds them (domains up to 2^14, 255 queries, folding 16, quadratic / cubic elements: layers above 64 KiB) through their own encoding, by slice and by chunked stream",
+        crate::c08::c07_fri_values,
+        1_500,
+        60_000,
+    ));
     for s in v.iter_mut() {
         s.alloc_cap = 1 << 30;
         s.watchdog_s = 90;
